@@ -94,6 +94,8 @@ impl IncrState {
                 n.observers.borrow().len(),
             )
             .unwrap();
+            let ch: Vec<String> = n.verif_children().iter().map(|(_, c)| name(c.id())).collect();
+            write!(s, " ch=[{}]", ch.join(",")).unwrap();
             if let Some((fs, inv, all, edges)) = n.verif_expert() {
                 write!(s, " x=[fs={} inv={} all={} edges={}]", b(fs), inv, b(all), edges).unwrap();
             }
